@@ -153,6 +153,7 @@ def build(name, vtype="real", pop=4, off=None, seed=None, constrained=False, nob
             s.evaluate()
             sols.append(s)
         generator = InjectedPopulation(sols)
+        injected_originals = sols
     if generator is not None:
         kw["generator"] = generator
     off = pop if off is None else off
@@ -215,6 +216,8 @@ def build(name, vtype="real", pop=4, off=None, seed=None, constrained=False, nob
         alg = CMAES(problem, offspring_size=off, **kw)
         info["kids"] = 1
         info["pop"] = off
+    if inject and name != "CMAES":
+        alg.verif_injected = injected_originals     # the evaluated solutions handed to InjectedPopulation (originals, not its copies)
     return alg, info
 
 
